@@ -314,3 +314,88 @@ func CheckC08(r *Report) {
 		r.AddExplore(last, fmt.Sprintf("preemption bound completed=%d", completed), time.Since(t0).Seconds())
 	})
 }
+
+// ---------------------------------------------------------------------------------
+// C20 (schedules): the "at most one unwrap / one re-read per interval" clauses under
+// concurrency: goroutines of one factory hit a stale key together; every interleaving up
+// to the preemption bound; the external calls of the concurrent phase are counted.
+// ---------------------------------------------------------------------------------
+
+func (sc *c08Scenario) c20Body(c *explore.Ctx) {
+	vsched.BeginQuiet()
+	st := sc.setup()
+	vsched.EndQuiet()
+	msFrom, kmsFrom := len(st.w.MS.Calls), len(st.w.KMS.Calls)
+	results := make([][]opResult, len(sc.threads))
+	for ti, ops := range sc.threads {
+		ti, ops := ti, ops
+		results[ti] = make([]opResult, len(ops))
+		vsched.GoNamed(fmt.Sprintf("user%d", ti), func() {
+			for oi, op := range ops {
+				results[ti][oi] = st.do(op)
+			}
+		})
+	}
+	vsched.Quiesce()
+	for ti, rs := range results {
+		for _, r := range rs {
+			if !r.done || r.pan != "" || r.err != nil || !r.ok {
+				c.Failf("op-failed", "thread %d op %s did not succeed: done=%v err=%v panic=%s", ti, r.op, r.done, r.err, r.pan)
+			}
+		}
+	}
+	unwraps := map[string]int{}
+	for _, cl := range st.w.KMS.Calls[kmsFrom:] {
+		if cl.Op == "DecryptKey" && cl.Result == "ok" {
+			unwraps[cl.ID]++
+		}
+	}
+	for id, n := range unwraps {
+		if n > 1 {
+			c.Failf("sk-unwrapped-concurrently", "the KMS was asked %d times to unwrap the same system key (%s) within one revoke-check interval by one factory", n, id)
+		}
+	}
+	reads := map[string]int{}
+	for _, cl := range st.w.MS.Calls[msFrom:] {
+		if cl.Op == "Load" || cl.Op == "LoadLatest" {
+			reads[fmt.Sprintf("%s/%d", cl.ID, cl.Created)]++
+		}
+	}
+	for k, n := range reads {
+		if n > 1 && (strings.HasPrefix(k, "_SK_") || sc.spec.SharedIK) {
+			c.Failf("record-reread-concurrently", "key record %s was read %d times in one interval by one factory (shared cache)", k, n)
+		}
+	}
+	c.Outcome(fmt.Sprintf("unwraps=%d reads=%d", len(st.w.KMS.Calls)-kmsFrom, len(st.w.MS.Calls)-msFrom))
+	vsched.BeginQuiet()
+	for _, p := range sc.parts {
+		st.sess[p].Close()
+	}
+	st.f.Close()
+	vsched.EndQuiet()
+}
+
+func c20SchedScenarios() []c08Scenario {
+	return []c08Scenario{
+		{name: "stale-sk-two-partitions", spec: SpecDefault, parts: []string{"A", "B"}, warm: []string{"dec:A", "dec:B"}, tick: R + 1,
+			threads: [][]string{{"dec:A"}, {"dec:B"}}},
+		{name: "stale-ik-shared-cache", spec: SpecShared("lru", 4), parts: []string{"A"}, warm: []string{"dec:A"}, tick: R + 1,
+			threads: [][]string{{"dec:A"}, {"dec:A"}}},
+		{name: "stale-sk-enc-and-dec", spec: SpecDefault, parts: []string{"A", "B"}, warm: []string{"dec:A", "dec:B"}, tick: R + 1,
+			threads: [][]string{{"enc:A"}, {"dec:B"}}},
+	}
+}
+
+func c20Sched(r *Report) {
+	bound := 2
+	if r.Thorough() {
+		bound = 3
+	}
+	for _, sc := range c20SchedScenarios() {
+		sc := sc
+		t0 := time.Now()
+		cfg := explore.Config{Name: "C20s/" + sc.name, Preemptions: bound, Deviations: 0, HBCache: true, Deadline: r.Deadline, MaxViolations: 5}
+		res := explore.Explore(cfg, sc.c20Body)
+		r.AddExplore(res, fmt.Sprintf("preemption bound %d", bound), time.Since(t0).Seconds())
+	}
+}
